@@ -361,6 +361,8 @@ def run(ctx):
             ctx.leanchecker(["HitenModel.Props.C02"])
     validate_traces(ctx)
     numerics(ctx)
+    if not ctx.violations:
+        ham_tolerance(ctx)
     ctx.rule = ("integrator x order x test problem (nonlinear, time-dependent, rational closed-form solutions) x step size / tolerance / "
                 "output grid; distinct by that tuple; non-trivial = problem is nonlinear or non-autonomous")
 
@@ -538,3 +540,28 @@ def numerics(ctx):
                     if prev is not None and not err <= max(prev, 5e-13):
                         pass  # shrinking is checked through the bound above at each tolerance
                     prev = err
+
+
+def ham_tolerance(ctx):
+    """Polynomial Hamiltonian systems (fast path) with rtol != atol and |y| << 1: delivered error vs requested tolerance."""
+    import polyutil as PU
+    from hiten.algorithms.integrators import rk
+    hd = {(0, 0, 0, 2, 0, 0): 0.5, (2, 0, 0, 0, 0, 0): 0.5, (0, 0, 0, 0, 2, 0): 0.6, (0, 2, 0, 0, 0, 0): 0.4, (0, 0, 0, 0, 0, 2): 0.5,
+          (0, 0, 2, 0, 0, 0): 0.8, (1, 0, 0, 1, 1, 0): 0.3, (0, 1, 1, 0, 0, 1): -0.2, (1, 1, 0, 1, 1, 0): 0.25, (3, 0, 0, 0, 0, 0): 0.4}
+    sysm, H = PU.ham_system(hd, 4)
+    y0 = 1e-3 * np.array([1.0, -0.7, 0.5, 0.3, 0.8, -0.4])
+    tv = np.linspace(0.0, 5.0, 41)
+    ref = rk.AdaptiveRK(8, rtol=1e-13, atol=1e-17).integrate(sysm, y0, tv).states
+    for p in sorted(rk.AdaptiveRK._map):
+        for (rtol, atol) in ((1e-8, 1e-14), (1e-10, 1e-16)):
+            sol = rk.AdaptiveRK(p, rtol=rtol, atol=atol).integrate(sysm, y0, tv)
+            err = float(np.abs(sol.states - ref).max())
+            allowed = atol + rtol * float(np.abs(ref).max())
+            ratio = err / allowed
+            ctx.case(("ham-tol", p, rtol, atol), kind="adaptive-tol-hamiltonian", sample={"order": p, "rtol": rtol, "atol": atol, "err_over_tol": ratio} if rtol == 1e-8 else None)
+            ctx.extra.setdefault("ham_err_over_tol", {})["%d:%g:%g" % (p, rtol, atol)] = round(ratio, 3)
+            if not ratio <= 200:
+                ctx.violation("adaptive-tol-hamiltonian:%d" % p,
+                              "adaptive order %d on a polynomial Hamiltonian system: error %.3g = %.0f x (atol + rtol*|y|) with rtol=%g, atol=%g" % (p, err, ratio, rtol, atol),
+                              {"order": p, "rtol": rtol, "atol": atol, "hamiltonian": {str(k): v for k, v in hd.items()}, "y0": y0.tolist(), "t_end": 5.0, "error": err})
+                return
